@@ -505,7 +505,7 @@ func runProperty(id, tier, repo, verif string, verbose bool) int {
 	}
 
 	cov := map[string]interface{}{
-		"explanation":        ps.Explanation,
+		"explanation":        claimText(verif, id, ps.Explanation) + " Rules applied at this tier: " + strings.Join(rulesFor(ps, tier), ", ") + " (one entry each under coverage.rules with its statement and counts).",
 		"obligations":        total,
 		"discharged":         discharged,
 		"known_findings":     nKnown,
@@ -596,4 +596,19 @@ func sortedPropIDs() []string {
 	}
 	sort.Strings(ids)
 	return ids
+}
+
+// claimText: the claim as stated in the manifest (single source: checker/manifest_claims.json).
+func claimText(verif, id, fallback string) string {
+	data, err := os.ReadFile(filepath.Join(verif, "checker", "manifest_claims.json"))
+	if err != nil {
+		return fallback
+	}
+	var m map[string]struct {
+		Text string `json:"text"`
+	}
+	if json.Unmarshal(data, &m) != nil || m[id].Text == "" {
+		return fallback
+	}
+	return m[id].Text
 }
